@@ -270,6 +270,12 @@ func c19Rules(p *core.Prog, r *core.Run) {
 
 	// --- H3
 	c19H3(p, r, rt)
+	// the scan takes the records in the order Resolve left them: sorted by priority
+	if rs, rtg := p.Func(Ech, "(*Resolver).Resolve"), p.Func(Ech, "(*Resolver).resolveTarget"); rs != nil && rtg != nil {
+		c14Sorted(p, r, rs, rtg, "C19.H3.sorted")
+	} else {
+		r.Undecided("C19.H3.sorted", "Resolve", "-", "Resolve / resolveTarget not found")
+	}
 
 	// --- BIND
 	okBind := false
